@@ -189,3 +189,55 @@ ii.iter_post("one-object-one-pickle-one-send",
              "count_events('user_call', lambda f: f is send_bytes) == 1 and "
              "ordered('acquire', lambda l: l is writelock, 'user_call', lambda f: f is send_bytes) and "
              "ordered('user_call', lambda f: f is send_bytes, 'release', lambda l: l is writelock)", prop=["C04", "C15"])
+
+
+# ---- reducers travel with the queue (C15)
+c = M.contract("Queue.__init__", props=["C15"])
+c.param("self", T.Ref("Queue")).param("maxsize", T.Int, default=VInt(0)).param("reducers", T.Obj, default=NONE).param("ctx", T.Obj, default=NONE)
+c.ensures("queue/keeps-its-reducers-and-size", "self._reducers is reducers and self._maxsize == maxsize")
+c.raises_only("queue/no-exception")
+c.modifies("self._reducers", "self._maxsize", "self._reader", "self._writer", "self._rlock", "self._wlock", "self._sem", "self._opid",
+           "self._ignore_epipe", "self._buffer", "self._notempty", "self._thread", "self._joincancelled", "self._jointhread",
+           "self._close", "self._send_bytes")
+
+c = M.contract("SimpleQueue.__init__", props=["C15"])
+c.param("self", T.Ref("SimpleQueue")).param("reducers", T.Obj, default=NONE).param("ctx", T.Obj, default=NONE)
+c.ensures("queue/keeps-its-reducers", "self._reducers is reducers")
+c.raises_only("queue/no-exception")
+c.modifies("self._reducers", "self._reader", "self._writer", "self._rlock", "self._wlock")
+
+c = S.ext("multiprocessing.context.assert_spawning", cite="assert_spawning(obj): RuntimeError unless a process is being spawned")
+c.param("obj", T.Obj).modifies()
+c.may_raise.append(("RuntimeError", None))
+
+c = M.contract("Queue.__getstate__", props=["C15"])
+c.param("self", T.Ref("Queue"))
+c.ensures("pickle/state-carries-the-reducers", "len(result) == 9 and result[4] is self._reducers and result[2] is self._reader and result[3] is self._writer and "
+          "result[1] == self._maxsize and result[0] == self._ignore_epipe")
+c.raises("pickle/only-outside-spawning", "RuntimeError")
+c.raises_only("pickle/only-runtime-error")
+c.modifies()
+
+c = M.contract("SimpleQueue.__getstate__", props=["C15"])
+c.param("self", T.Ref("SimpleQueue"))
+c.ensures("pickle/state-carries-the-reducers", "len(result) == 5 and result[2] is self._reducers and result[0] is self._reader and result[1] is self._writer")
+c.raises("pickle/only-outside-spawning", "RuntimeError")
+c.raises_only("pickle/only-runtime-error")
+c.modifies()
+
+c = M.contract("SimpleQueue.__setstate__", props=["C15"])
+c.param("self", T.Ref("SimpleQueue")).param("state", T.Tup(T.Ref("Connection"), T.Ref("Connection"), T.Obj, T.Ref("MPLock"), T.Ref("MPLock", nullable=True)))
+c.ensures("unpickle/reducers-restored", "self._reducers is state[2] and self._reader is state[0] and self._writer is state[1] and self._wlock is state[4]")
+c.raises_only("unpickle/no-exception")
+c.modifies("self._reader", "self._writer", "self._reducers", "self._rlock", "self._wlock")
+
+c = S.ext("mp.Queue._reset", cite="multiprocessing.queues.Queue._reset(): re-creates the process-local parts (buffer, condition, thread slots)")
+c.param("self", T.Ref("mp.Queue")).param("after_fork", T.Obj, default=NONE)
+c.modifies("self._buffer", "self._notempty", "self._thread", "self._jointhread", "self._joincancelled", "self._close", "self._send_bytes")
+c = M.contract("Queue.__setstate__", props=["C15"])
+c.param("self", T.Ref("Queue")).param("state", T.Tup(T.Bool, T.Int, T.Ref("Connection"), T.Ref("Connection"), T.Obj, T.Ref("MPLock"),
+                                                     T.Ref("MPLock", nullable=True), T.Ref("MPLock"), T.Int))
+c.ensures("unpickle/reducers-restored", "self._reducers is state[4] and self._reader is state[2] and self._writer is state[3] and self._maxsize == state[1]")
+c.raises_only("unpickle/no-exception")
+c.modifies("self._ignore_epipe", "self._maxsize", "self._reader", "self._writer", "self._reducers", "self._rlock", "self._wlock", "self._sem", "self._opid",
+           "self._buffer", "self._notempty", "self._thread", "self._jointhread", "self._joincancelled", "self._close", "self._send_bytes")
